@@ -19,6 +19,8 @@ out += ["", "### Seeded changes (written by sub-agents from the property text al
 for m in sorted(glob.glob("seeded/*/meta.json")):
     d = json.load(open(m))
     caught = ", ".join(d.get("caught_by", [])) or "**missed**"
+    if d.get("obsolete"):
+        caught += " when written; no longer a violation: " + d["obsolete"]
     if d.get("missed_reason"):
         caught += " (not by %s: %s)" % (d["property"], d["missed_reason"])
     out.append("| %s | %s | %s | %s | %s |" % (os.path.basename(os.path.dirname(m)), d["property"], d["needs"].replace("|", "\\|"), caught.replace("|", "\\|"),
